@@ -83,6 +83,14 @@ def parseMerge (po : PercentOracle) (io : IntOracle) (defaultPercent : Nat × Na
     | some none => .error .valueError
     | some (some i) => pure (.number i.toNat)
   | ["exact"] => pure .exact
+  | "percent" :: a :: _ :: _ => match po a with        -- the argument converter runs before the constructor's arity check
+    | none => .error (.oracleMiss ("percent " ++ a))
+    | some none => .error .valueError
+    | some (some _) => .error .typeError
+  | "number" :: a :: _ :: _ => match io a with
+    | none => .error (.oracleMiss ("int " ++ a))
+    | some none => .error .valueError
+    | some (some _) => .error .typeError
   | name :: _ => if name == "percent" || name == "number" || name == "exact" then .error .typeError   -- too many arguments
                  else .error .valueError                                                          -- invalid merge policy
   | [] => .error .valueError
